@@ -417,7 +417,8 @@ def write_replay(prop, payload):
 
 
 def write_evidence(prop, tier, level, coverage, assumptions, wall, violations):
-    d = os.path.join(VERIF, "evidence")
+    # VERIF_EVIDENCE_DIR: runs against a deliberately modified /repo (seeded changes) must not overwrite the evidence
+    d = os.environ.get("VERIF_EVIDENCE_DIR") or os.path.join(VERIF, "evidence")
     os.makedirs(d, exist_ok=True)
     ev = dict(property_id=prop, tier=tier, seed=seed(), level=level, coverage=coverage,
               assumptions=assumptions, wall_s=round(wall, 2), violations=violations)
